@@ -103,6 +103,7 @@ Lemma ins_error_unchanged : forall fuel cf h this new ref h' e,
 Proof.
   intros [|fuel] cf h this new ref h' e T; cbn [ins]; [intros [= <- _]; reflexivity|].
   destruct (n_ty (nd h this)); try (intros [= <- _]; reflexivity); try (apply pins_error_unchanged; assumption).
+  destruct (_ && _ && _); [intros [= <- _]; reflexivity|].
   destruct (_ && _); [intros [= <- _]; reflexivity|].
   destruct (pins_body _ cf h this new ref) as [h1 r1] eqn:E1.
   destruct r1; cbn [is_err]; try (destruct (ntype_eqb _ _); discriminate).
